@@ -207,9 +207,14 @@ func runC07(w *fw.W) {
 	outers := []c07tmpl{{name: "array", text: "[«0:int», «1:int»]"}, {name: "infix +", text: "(«0:int» + «1:int»)"}, {name: "call args", text: "f(«0:int», k: «1:int»)"},
 		{name: "embedded", text: `"p#{«0:int»}q#{«1:int»}"`}, {name: "object", text: "{a: «0:int», b: «1:int»}"}, {name: "list chain body", text: "[«0:int»]@{|x| «1:int»}"}}
 	if w.Thorough() {
+		outers = append(outers, c07tmpl{name: "map value", text: "%{1: «0:int», 2: «1:int»}"},
+			c07tmpl{name: "func body with defer", text: "{|| defer \"D9\".p; «0:int»; «1:int»}()", allow: []string{"D9"}},
+			c07tmpl{name: "reduce body", text: "[«0:int»]$(0){|acc, x| «1:int»}"},
+			c07tmpl{name: "method args", text: "o.m(«0:int», «1:int»)"},
+			c07tmpl{name: "iterator body", text: "<{|i| yield [«0:int», «1:int»]}>.new(0).next"})
 		for _, out := range outers {
 			for pos := 0; pos < 2; pos++ {
-				for _, in := range simple {
+				for _, in := range append(append([]c07tmpl{}, simple...), c07chainTemplates()...) {
 					if strings.Contains(in.text, ":=") || strings.Contains(in.text, "=>") || (out.name == "embedded" && c07noEmbed(in.text)) {
 						continue
 					}
@@ -219,7 +224,7 @@ func runC07(w *fw.W) {
 						inner = strings.Replace(inner, fmt.Sprintf("«%d:%s»", h.idx, h.typ), fmt.Sprintf("«%d:%s»", h.idx+10, h.typ), 1)
 					}
 					text := strings.Replace(out.text, fmt.Sprintf("«%d:int»", pos), "("+inner+")", 1)
-					all = append(all, c07tmpl{name: "nested " + out.name + "[" + fmt.Sprint(pos) + "] ⊃ " + in.name, text: text, allow: in.allow})
+					all = append(all, c07tmpl{name: "nested " + out.name + "[" + fmt.Sprint(pos) + "] ⊃ " + in.name, text: text, allow: append(append([]string{}, in.allow...), out.allow...)})
 				}
 			}
 		}
